@@ -466,74 +466,215 @@ func idxParam(v ssa.Value) int {
 	return -1
 }
 
-// ruleC03SequenceMonotonic: datalog.maxSequenceID only grows: ++ or assignment guarded by "new > max".
+// ruleC03SequenceMonotonic: datalog.maxSequenceID only grows: ++, an assignment guarded by "new > max",
+// or an assignment of max(current, new).
 func ruleC03SequenceMonotonic(r *Run, p *Program, rule string) {
-	stores := storesToField(p, "pogreb.datalog.maxSequenceID")
+	const fld = "pogreb.datalog.maxSequenceID"
+	stores := storesToField(p, fld)
 	r.universe(rule, len(stores), 2)
+	incs := map[*ssa.Function]*ssa.Store{}
 	for _, st := range stores {
 		f := st.Parent()
 		r.fn(funcKey(f))
 		okv := false
 		desc := ""
-		if bo, ok := st.Val.(*ssa.BinOp); ok && bo.Op == token.ADD && isFieldLoad(bo.X, "pogreb.datalog.maxSequenceID") {
+		if bo, ok := st.Val.(*ssa.BinOp); ok && bo.Op == token.ADD && isFieldLoad(bo.X, fld) {
 			if k, ok := constInt(bo.Y); ok && k == 1 {
 				okv, desc = true, "increment"
+				incs[f] = st
 			}
 		}
 		if !okv {
-			okv = controlledBy(f, st, func(c *Cond) bool {
-				// st.Val > load(maxSequenceID) holds
-				op := c.Op
-				x, y := c.X, c.Y
-				if x == nil {
-					return false
-				}
-				if !c.Pos {
-					switch op {
-					case token.LEQ:
-						op = token.GTR
-					case token.GEQ:
-						op = token.LSS
-					default:
-						return false
+			sameVal := func(a ssa.Value) bool { return valString(a) == valString(st.Val) }
+			isMax := func(a ssa.Value) bool { return isFieldLoad(a, fld) }
+			okv = controlledBy(f, st, func(c *Cond) bool { return impliesCmp(c, sameVal, isMax, false) })
+			desc = "assignment guarded by 'value > maxSequenceID'"
+		}
+		if !okv {
+			// max(current, x): the builtin or a two-parameter function proved to return the larger argument
+			if c, ok := strip(st.Val).(*ssa.Call); ok {
+				hasCur := false
+				for _, a := range c.Call.Args {
+					if isFieldLoad(a, fld) {
+						hasCur = true
 					}
 				}
-				sameVal := func(a ssa.Value) bool { return valString(a) == valString(st.Val) }
-				if op == token.GTR {
-					return sameVal(x) && isFieldLoad(y, "pogreb.datalog.maxSequenceID")
+				if b, ok := c.Call.Value.(*ssa.Builtin); ok && b.Name() == "max" && hasCur {
+					okv, desc = true, "max(maxSequenceID, value)"
+				} else if g := c.Call.StaticCallee(); g != nil && hasCur && isMaxFunc(g) {
+					okv, desc = true, funcKey(g)+"(maxSequenceID, value), which returns the larger argument"
 				}
-				if op == token.LSS {
-					return sameVal(y) && isFieldLoad(x, "pogreb.datalog.maxSequenceID")
-				}
-				return false
-			})
-			desc = "assignment guarded by 'value > maxSequenceID'"
+			}
 		}
 		r.check(okv, rule, funcKey(f)+":store", p.Pos(st.Pos()), "maxSequenceID only grows ("+desc+")", "datalog.maxSequenceID can be assigned a value that is not larger than the current maximum: a new segment then gets a sequence id below an existing segment's, and recovery replays the newer records first (old values reappear)")
 	}
-	// new segments take maxSequenceID+1
-	if f := p.Fn("(*pogreb.datalog).nextWritableSegmentID"); r.anchor(rule, "(*pogreb.datalog).nextWritableSegmentID", f != nil) {
+	// new segments take maxSequenceID+1: the function that increments the counter hands out the incremented value,
+	// and hands out only ids whose table entry is nil
+	if !r.anchor(rule, "the function incrementing datalog.maxSequenceID (nextWritableSegmentID)", len(incs) > 0) {
+		return
+	}
+	for f, inc := range incs {
 		okv := false
-		for _, ret := range returnsOf(f) {
-			if len(ret.Results) == 3 && isNilConst(ret.Results[2]) {
-				// result #1 is a load of maxSequenceID after the increment
-				if isFieldLoad(ret.Results[1], "pogreb.datalog.maxSequenceID") {
-					for _, st := range stores {
-						if st.Parent() == f && mustPrecedeInstr(f, ret, st) {
-							okv = true
-						}
-					}
+		instrsOf(f, func(in ssa.Instruction) {
+			if ld, ok := in.(*ssa.UnOp); ok && ld.Op == token.MUL && fieldName(ld.X) == fld {
+				if mustPrecedeInstr(f, ld, inc) && flowsToReturn(ld) {
+					okv = true
 				}
-				// only nil slots are handed out
+			}
+		})
+		for _, ret := range returnsOf(f) {
+			n := len(ret.Results)
+			if n >= 2 && isNilConst(retOperand(ret, n-1)) {
 				free := controlledBy(f, ret, func(c *Cond) bool {
 					eq, ok := c.holdsEq()
 					return ok && eq && (isNilConst(c.X) || isNilConst(c.Y))
 				})
-				r.check(free, rule, funcKey(f)+":free-slot", p.Pos(instrPos(ret)), "a segment id is handed out only when its table entry is nil", "nextWritableSegmentID can hand out the id of an existing segment")
+				r.check(free, rule, "nextWritableSegmentID:free-slot", p.Pos(instrPos(ret)), "a segment id is handed out only when its table entry is nil", "nextWritableSegmentID can hand out the id of an existing segment")
 			}
 		}
-		r.check(okv, rule, funcKey(f)+":fresh-sequence", p.Pos(f.Pos()), "a new segment gets maxSequenceID+1", "a new segment does not get a sequence id above every existing one")
+		r.check(okv, rule, "nextWritableSegmentID:fresh-sequence", p.Pos(f.Pos()), "a new segment gets maxSequenceID+1 (the value loaded after the increment is what "+funcKey(f)+" returns)", "a new segment does not get a sequence id above every existing one")
 	}
+}
+
+// impliesCmp reports whether the edge condition c implies A >= B (A > B when strict), where isA and isB identify the operands.
+func impliesCmp(c *Cond, isA, isB func(ssa.Value) bool, strict bool) bool {
+	if c.X == nil || c.Y == nil {
+		return false
+	}
+	op := c.Op
+	if !c.Pos {
+		switch op {
+		case token.LSS:
+			op = token.GEQ
+		case token.LEQ:
+			op = token.GTR
+		case token.GTR:
+			op = token.LEQ
+		case token.GEQ:
+			op = token.LSS
+		default:
+			return false
+		}
+	}
+	switch {
+	case isA(c.X) && isB(c.Y):
+		return op == token.GTR || (!strict && op == token.GEQ)
+	case isA(c.Y) && isB(c.X):
+		return op == token.LSS || (!strict && op == token.LEQ)
+	}
+	return false
+}
+
+// isMaxFunc: g has two integer parameters and every value it returns is one of them, returned only where it is >= the other.
+func isMaxFunc(g *ssa.Function) bool {
+	if len(g.Params) != 2 || g.Signature.Results().Len() != 1 || len(g.Blocks) == 0 {
+		return false
+	}
+	other := func(v ssa.Value) ssa.Value {
+		switch strip(v) {
+		case ssa.Value(g.Params[0]):
+			return g.Params[1]
+		case ssa.Value(g.Params[1]):
+			return g.Params[0]
+		}
+		return nil
+	}
+	edgeOK := func(v ssa.Value, c *Cond) bool {
+		o := other(v)
+		return c != nil && o != nil && impliesCmp(c, func(a ssa.Value) bool { return strip(a) == strip(v) }, func(a ssa.Value) bool { return strip(a) == o }, false)
+	}
+	rets := returnsOf(g)
+	if len(rets) == 0 {
+		return false
+	}
+	for _, ret := range rets {
+		v := strip(retOperand(ret, 0))
+		if ph, ok := v.(*ssa.Phi); ok {
+			for i, e := range ph.Edges {
+				if other(e) == nil {
+					return false
+				}
+				pred := ph.Block().Preds[i]
+				good := false
+				for k, s := range pred.Succs {
+					if s == ph.Block() && edgeOK(e, edgeCond(pred, k)) {
+						good = true
+					}
+				}
+				if !good && len(pred.Instrs) > 0 {
+					good = controlledBy(g, pred.Instrs[0], func(c *Cond) bool { return edgeOK(e, c) })
+				}
+				if !good {
+					return false
+				}
+			}
+			continue
+		}
+		if other(v) == nil {
+			return false
+		}
+		if !controlledBy(g, ret, func(c *Cond) bool { return edgeOK(v, c) }) {
+			return false
+		}
+	}
+	return true
+}
+
+// flowsToReturn: v reaches a Return of its function unchanged - directly, through phis and type changes,
+// or stored into a field of a local struct that is returned.
+func flowsToReturn(v ssa.Value) bool {
+	seen := map[ssa.Value]bool{}
+	var rec func(v ssa.Value) bool
+	rec = func(v ssa.Value) bool {
+		if seen[v] {
+			return false
+		}
+		seen[v] = true
+		refs := v.Referrers()
+		if refs == nil {
+			return false
+		}
+		for _, u := range *refs {
+			switch x := u.(type) {
+			case *ssa.Return:
+				return true
+			case *ssa.Phi:
+				if rec(x) {
+					return true
+				}
+			case *ssa.ChangeType:
+				if rec(x) {
+					return true
+				}
+			case *ssa.Store:
+				if x.Val != v {
+					continue
+				}
+				base := x.Addr
+				for {
+					if fa, ok := base.(*ssa.FieldAddr); ok {
+						base = fa.X
+						continue
+					}
+					break
+				}
+				if al, ok := base.(*ssa.Alloc); ok {
+					if al.Referrers() != nil {
+						for _, w := range *al.Referrers() {
+							if ld, ok := w.(*ssa.UnOp); ok && ld.Op == token.MUL && rec(ld) {
+								return true
+							}
+							if _, ok := w.(*ssa.Return); ok { // pointer to the local struct returned
+								return true
+							}
+						}
+					}
+				}
+			}
+		}
+		return false
+	}
+	return rec(v)
 }
 
 // ---------- C11 ----------
